@@ -16,6 +16,8 @@
 //!   r  bytes  argv element / E bytes  environment entry, walked from the pointers resolve() returned
 //!   T  clk u32, iters u32, fails u32, kinds u32, first failing (before, mid, after) 6 x i64, last mid 2 x i64
 //!   S  bytes   relocation self test (static pointer tables)
+//!   B  base u64, checked u32, skipped u32, modified u32, first (offset, value) 2 x u64, bait_ok u8, data_ok u8,
+//!      link-time offsets of C07_BAIT, C07_DATA_CANARY, INBUF (3 x u64): relocation bait / canary check done at main entry
 //!   Z  "done"
 //! All I/O of the probe itself uses its own raw syscalls, not rusl.
 #![no_std]
@@ -529,8 +531,239 @@ fn reloc_selftest() {
     put(&buf[..n]);
 }
 
+// ---- relocation bait + canaries ------------------------------------------------------------------
+// Read-only tables whose words decode as R_X86_64_RELATIVE records (r_info == 8) under every plausible stride and
+// phase, so that a relocation walk that runs past .rela.dyn (or strides wrongly) has something to bite on:
+//  * BAIT_ALL8: every word is 8 -> {offset 8, RELATIVE, addend 8}: a write into the read-only ELF header -> SIGSEGV
+//  * BAIT_RELA: {X, 8, addend} triples (24-byte stride), three rows whose phases differ by one word
+//  * BAIT_REL:  {X, 8} pairs (16-byte stride), two rows whose phases differ by one word
+// X runs over link-time offsets 0x40000 + i * 0x10000, which lie inside this probe's zero-initialised .bss
+// buffers (6.6 MiB) in every link mode: a bogus relocation applied there leaves a non-zero word that main() finds
+// before it has touched those buffers.
+const NB: usize = 96;
+const BAIT_ADDEND: u64 = 0x5151;
+const fn bait_off(i: usize) -> u64 {
+    0x40000 + (i as u64) * 0x10000
+}
+const RELA_ROW: usize = 3 * NB + 1;
+const REL_ROW: usize = 2 * NB + 1;
+const fn mk_rela() -> [u64; 3 * RELA_ROW] {
+    let mut t = [0u64; 3 * RELA_ROW];
+    let mut r = 0;
+    while r < 3 {
+        let mut i = 0;
+        while i < NB {
+            t[r * RELA_ROW + 3 * i] = bait_off(i);
+            t[r * RELA_ROW + 3 * i + 1] = 8;
+            t[r * RELA_ROW + 3 * i + 2] = BAIT_ADDEND;
+            i += 1;
+        }
+        r += 1;
+    }
+    t
+}
+const fn mk_rel() -> [u64; 2 * REL_ROW] {
+    let mut t = [0u64; 2 * REL_ROW];
+    let mut r = 0;
+    while r < 2 {
+        let mut i = 0;
+        while i < NB {
+            t[r * REL_ROW + 2 * i] = bait_off(i);
+            t[r * REL_ROW + 2 * i + 1] = 8;
+            i += 1;
+        }
+        r += 1;
+    }
+    t
+}
+// short groups first (4 records + 1 pad word, so that the phase rotates every group): even a short over-run that
+// starts right behind .rela.dyn meets every phase within a few hundred bytes
+const HG: usize = 4;
+const HEAD_RELA_GROUPS: usize = 6;
+const HEAD_REL_GROUPS: usize = 4;
+const HEAD_RELA: usize = HEAD_RELA_GROUPS * (3 * HG + 1);
+const HEAD_REL: usize = HEAD_REL_GROUPS * (2 * HG + 1);
+const fn mk_head_rela() -> [u64; HEAD_RELA] {
+    let mut t = [0u64; HEAD_RELA];
+    let mut g = 0;
+    while g < HEAD_RELA_GROUPS {
+        let mut i = 0;
+        while i < HG {
+            t[g * (3 * HG + 1) + 3 * i] = bait_off(g * HG + i);
+            t[g * (3 * HG + 1) + 3 * i + 1] = 8;
+            t[g * (3 * HG + 1) + 3 * i + 2] = BAIT_ADDEND;
+            i += 1;
+        }
+        g += 1;
+    }
+    t
+}
+const fn mk_head_rel() -> [u64; HEAD_REL] {
+    let mut t = [0u64; HEAD_REL];
+    let mut g = 0;
+    while g < HEAD_REL_GROUPS {
+        let mut i = 0;
+        while i < HG {
+            t[g * (2 * HG + 1) + 2 * i] = bait_off(HEAD_RELA_GROUPS * HG + g * HG + i);
+            t[g * (2 * HG + 1) + 2 * i + 1] = 8;
+            i += 1;
+        }
+        g += 1;
+    }
+    t
+}
+#[repr(C)]
+pub struct Bait {
+    head_rela: [u64; HEAD_RELA],
+    head_rel: [u64; HEAD_REL],
+    all8: [u64; 1024],
+    rela: [u64; 3 * RELA_ROW],
+    rel: [u64; 2 * REL_ROW],
+}
+#[used]
+#[no_mangle]
+#[link_section = ".rodata.c07_bait"]
+pub static C07_BAIT: Bait =
+    Bait { head_rela: mk_head_rela(), head_rel: mk_head_rel(), all8: [8; 1024], rela: mk_rela(), rel: mk_rel() };
+static BAIT_HEAD_RELA_EXPECT: [u64; HEAD_RELA] = mk_head_rela();
+static BAIT_HEAD_REL_EXPECT: [u64; HEAD_REL] = mk_head_rel();
+const DATA_CANARY_WORD: u64 = 0xC07C_07C0_7C07_C07C;
+#[used]
+#[no_mangle]
+pub static mut C07_DATA_CANARY: [u64; 64] = [DATA_CANARY_WORD; 64];
+
+extern "C" {
+    static __ehdr_start: u8;
+}
+
+struct BaitReport {
+    base: u64,
+    checked: u32,
+    skipped: u32,
+    modified: u32,
+    first_off: u64,
+    first_val: u64,
+    bait_ok: u8,
+    data_ok: u8,
+    bait_at: u64,
+    data_at: u64,
+    inbuf_at: u64,
+}
+
+/// Must run before main() touches any of its buffers.
+fn bait_check() -> BaitReport {
+    let base = unsafe { core::ptr::addr_of!(__ehdr_start) as usize };
+    let bufs: [(usize, usize); 4] = unsafe {
+        [
+            (INBUF.as_ptr() as usize, IN_CAP),
+            (KEYBUF.as_ptr() as usize, KEY_CAP),
+            (OUTBUF.as_ptr() as usize, OUT_CAP),
+            (SMALL.as_ptr() as usize, SMALL_CAP),
+        ]
+    };
+    let mut rp = BaitReport {
+        base: base as u64,
+        checked: 0,
+        skipped: 0,
+        modified: 0,
+        first_off: 0,
+        first_val: 0,
+        bait_ok: 1,
+        data_ok: 1,
+        bait_at: (core::ptr::addr_of!(C07_BAIT) as usize).wrapping_sub(base) as u64,
+        data_at: (core::ptr::addr_of!(C07_DATA_CANARY) as usize).wrapping_sub(base) as u64,
+        inbuf_at: (bufs[0].0).wrapping_sub(base) as u64,
+    };
+    for i in 0..NB {
+        let a = base.wrapping_add(bait_off(i) as usize);
+        let mut inside = false;
+        for (s, l) in bufs {
+            if a >= s && a + 8 <= s + l {
+                inside = true;
+            }
+        }
+        if !inside {
+            rp.skipped += 1;
+            continue;
+        }
+        rp.checked += 1;
+        let v = unsafe { core::ptr::read_volatile(a as *const u64) };
+        if v != 0 {
+            if rp.modified == 0 {
+                rp.first_off = bait_off(i);
+                rp.first_val = v;
+            }
+            rp.modified += 1;
+        }
+    }
+    // the tables themselves and the .data canary must still hold their link-time values
+    let b = core::ptr::addr_of!(C07_BAIT);
+    unsafe {
+        for r in 0..3 {
+            for i in 0..NB {
+                let p = (*b).rela.as_ptr().add(r * RELA_ROW + 3 * i);
+                if core::ptr::read_volatile(p) != bait_off(i)
+                    || core::ptr::read_volatile(p.add(1)) != 8
+                    || core::ptr::read_volatile(p.add(2)) != BAIT_ADDEND
+                {
+                    rp.bait_ok = 0;
+                }
+            }
+        }
+        for r in 0..2 {
+            for i in 0..NB {
+                let p = (*b).rel.as_ptr().add(r * REL_ROW + 2 * i);
+                if core::ptr::read_volatile(p) != bait_off(i) || core::ptr::read_volatile(p.add(1)) != 8 {
+                    rp.bait_ok = 0;
+                }
+            }
+        }
+        for i in 0..HEAD_RELA {
+            if core::ptr::read_volatile((*b).head_rela.as_ptr().add(i)) != BAIT_HEAD_RELA_EXPECT[i] {
+                rp.bait_ok = 0;
+            }
+        }
+        for i in 0..HEAD_REL {
+            if core::ptr::read_volatile((*b).head_rel.as_ptr().add(i)) != BAIT_HEAD_REL_EXPECT[i] {
+                rp.bait_ok = 0;
+            }
+        }
+        for i in 0..1024 {
+            if core::ptr::read_volatile((*b).all8.as_ptr().add(i)) != 8 {
+                rp.bait_ok = 0;
+            }
+        }
+        let d = core::ptr::addr_of!(C07_DATA_CANARY) as *const u64;
+        for i in 0..64 {
+            if core::ptr::read_volatile(d.add(i)) != DATA_CANARY_WORD {
+                rp.data_ok = 0;
+            }
+        }
+    }
+    rp
+}
+
+fn bait_record(rp: &BaitReport) {
+    rec(
+        b'B',
+        &[
+            &rp.base.to_le_bytes(),
+            &rp.checked.to_le_bytes(),
+            &rp.skipped.to_le_bytes(),
+            &rp.modified.to_le_bytes(),
+            &rp.first_off.to_le_bytes(),
+            &rp.first_val.to_le_bytes(),
+            &[rp.bait_ok, rp.data_ok],
+            &rp.bait_at.to_le_bytes(),
+            &rp.data_at.to_le_bytes(),
+            &rp.inbuf_at.to_le_bytes(),
+        ],
+    );
+}
+
 #[no_mangle]
 pub fn main() -> i32 {
+    let bait = bait_check();
     let n = read_all(0, unsafe { INBUF.as_mut_ptr() }, IN_CAP);
     let input = unsafe { core::slice::from_raw_parts(INBUF.as_ptr(), n) };
     if n < 12 || &input[0..4] != b"C07I" {
@@ -548,6 +781,7 @@ pub fn main() -> i32 {
         vdso_bracket(0, iters);
     }
     reloc_selftest();
+    bait_record(&bait);
     rec(b'Z', &[b"done"]);
     flush();
     0
